@@ -272,7 +272,12 @@ impl Mux {
                         length -= size;
                     }
                 }
-                _ => unreachable!("bad FrameKind"),
+                _ => {
+                    // Both kind bits set: not a frame kind defined by the protocol.
+                    return Err(RunError::Protocol(anyhow::format_err!(
+                        "bad frame kind in {header:?}"
+                    )));
+                }
             }
         }
     }
